@@ -136,6 +136,29 @@ def projection_cases(rng, tier, neuter_fn=None):
                 yield "ckd %s %d -" % (spec, i), "projection-siblings-" + why
 
 
+def _hist_cases(rng, tier):
+    """private derivation inside operation histories on ONE shared wallet: the same node is asked for several paths
+    (the client hands over ONE list object, modified in place between requests — impl.HistCtx), single steps, bulk
+    intervals; kept nodes are looked at again.  Judged by the stateless recomputation of C13."""
+    from .c13 import gen_history
+    H = 2 ** 31
+    for _ in range(2 if tier == "quick" else 60):
+        e = bytes(rng.getrandbits(8) for _ in range(16)).hex()
+        i, j = rng.choice(IDX), rng.choice(IDX)
+        ops = ["dp:0:%s" % impl.lst(str, [84 + H, H, H, 0, 0]), "dp:0:%s" % impl.lst(str, [84 + H, H, H, 0, 1]),
+               "dp:0:%s" % impl.lst(str, [i, j]), "dp:0:%s" % impl.lst(str, [i, j, 7]), "dp:0:%s" % impl.lst(str, [i]),
+               "dp:2:%s" % impl.lst(str, [1, 2]), "dp:2:%s" % impl.lst(str, [1, 3]), "dp:0:%s" % impl.lst(str, [j, i]),
+               "xk:1", "xk:2", "xk:4"] + gen_history(rng, 8)
+        yield "hist ent:%s:-:-:%s %s" % (sx(e), rng.choice("01"), ";".join(ops)), "shared-private-object-history"
+
+
+def _bulk_cases(rng, tier):
+    for _ in range(2 if tier == "quick" else 40):
+        spec, k, chain, depth = rand_parent(rng)
+        for ar, a, b, st in common.bulk_interval_shapes(rng):
+            yield "gen_step %s %d %d %d %d -" % (spec, ar, a, b, st), "bulk-interval-shape"
+
+
 def nontrivial(line, out):
     return True
 
@@ -144,6 +167,11 @@ def oracle(line, out):
     tok = line.split(" ")
     op = tok[0]
     v = ok_val(out)
+    if op == "hist":
+        from .c13 import oracle as o13
+        return o13(line, out)
+    if op == "gen_step":
+        return common.bulk_oracle(line, out)
     if op == "master":
         seed, t, prf = unhex(tok[1]), tok[2], tok[3]
         I = hmac.new(b"Bitcoin seed", seed, hashlib.sha512).digest() if prf == "-" else unhex(prf[4:])
@@ -216,5 +244,7 @@ def literal_ops(lit):
 
 def cases(rng, tier):
     yield from _cases_main(rng, tier)
+    yield from _hist_cases(rng, tier)
+    yield from _bulk_cases(rng, tier)
     yield from collision_cases(rng, tier)
     yield from projection_cases(rng, tier)
